@@ -42,7 +42,14 @@ func handPath(rng *rand.Rand, src, dst addr.IA, nextHop netip.AddrPort, idx int)
 func c05SCION(r *ev.Run, rng *rand.Rand, nScripts int) {
 	log := slog.New(slog.DiscardHandler)
 	srvIP, cliIP, otherIP := blockIP(r, 5, 11), blockIP(r, 5, 12), blockIP(r, 5, 13)
-	for _, inter := range []bool{false, true} {
+	for mode := 0; mode < 4; mode++ {
+		// mode 2: a client in interleaved mode that is new for every call, so that its first request
+		// of the call is a basic-mode request (no previous exchange to refer to)
+		// mode 3: one client in interleaved mode asked to measure against two server addresses in
+		// turn: every first request of a call is a basic-mode request although a previous
+		// exchange (with the other address) is on record
+		inter, fresh, alt := mode > 0, mode == 2, mode == 3
+		calls := 0
 		p := &c05Peer{other: otherIP, rng: rng, issued: map[int]int{}, lastTx: map[netip.Addr]uint64{}, lastRx: map[netip.Addr]uint64{}}
 		var last *peer.ParsedSCION
 		p.unwrap = func(b []byte) ([]byte, bool) {
@@ -93,6 +100,12 @@ func c05SCION(r *ev.Run, rng *rand.Rand, nScripts int) {
 			c05Spy = &c03Spy{}
 			c.Filter = c05Spy
 		}
+		if fresh {
+			name = "scion-client(interleaved,new client per call)"
+		}
+		if alt {
+			name = "scion-client(interleaved,two servers in turn)"
+		}
 		pth := handPath(rng, c05LIA, c05RIA, s.Addr, 0)
 		muts := c05HeaderMuts(rng, false)
 		var keep []c05Mut
@@ -107,8 +120,16 @@ func c05SCION(r *ev.Run, rng *rand.Rand, nScripts int) {
 		c05Leg(r, name, p, keep, func(ctx context.Context) (time.Time, time.Duration, error) {
 			la := udp.UDPAddr{IA: c05LIA, Host: &net.UDPAddr{IP: cliIP.AsSlice()}}
 			ra := udp.UDPAddr{IA: c05RIA, Host: &net.UDPAddr{IP: srvIP.AsSlice(), Port: 10123}}
-			return client.MeasureClockOffsetSCION(ctx, log, []*client.SCIONClient{c}, la, ra, []snet.Path{pth})
-		}, rng, nScripts/2)
+			cc := c
+			if fresh {
+				cc = &client.SCIONClient{Log: log, InterleavedMode: true, Filter: c05Spy}
+			}
+			calls++
+			if alt && calls%2 == 0 {
+				ra.Host.Port = 10124
+			}
+			return client.MeasureClockOffsetSCION(ctx, log, []*client.SCIONClient{cc}, la, ra, []snet.Path{pth})
+		}, rng, map[bool]int{false: nScripts / 2, true: nScripts / 6}[fresh || alt])
 		s.Close()
 	}
 	_ = time.Second
